@@ -56,7 +56,7 @@ def fn_with(body, params='app: tauri::AppHandle', name='work', ret='-> Result<()
 class C12(C.PipelineCheck):
     id = 'C12'
     title = 'One correctly named, correctly subscribed listener per emitted event'
-    required_covers = ('placement', 'receiver:handle', 'receiver:other', 'name:symbolic', 'two-names:equal', 'two-names:distinct', 'payload:typed',
+    required_covers = ('placement', 'receiver:handle', 'receiver:other', 'name:symbolic', 'two-names:equal', 'two-names:distinct', 'three-names', 'payload:typed',
                        'payload:unknown', 'no-events')
 
     def bounds(self, tier):
@@ -87,6 +87,8 @@ class C12(C.PipelineCheck):
         for a in range(1, (2 if q else 3) + 1):
             for b in range(1, (2 if q else 3) + 1):
                 yield ('two-names/%d-%d' % (a, b), dict(kind='two', a=a, b=b))
+        for n in (1, 2):
+            yield ('three-names/%d' % n, dict(kind='three', n=n))
         for form in ('param', 'ref-param', 'clone-param', 'let-annotated', 'let-annotated-init', 'struct-expr', 'literals', 'untyped', 'untyped-binding'):
             yield ('payload/%s' % form, dict(kind='payload', form=form))
         yield ('no-events', dict(kind='none'))
@@ -186,6 +188,20 @@ class C12(C.PipelineCheck):
                 files['src/main.rs'] = C.HEADER + holder + 'pub fn work(app: tauri::AppHandle) { app.emit("HOLE_e", 1).unwrap(); }\n'
                 expected = [(nm, ('num',))]
                 e.cover('name:symbolic')
+            elif kind == 'three':
+                # two names that collide on one identifier plus a third whose own identifier is the suffixed form:
+                # x-y / x_y / x-y2 style triples with a symbolic stem; every listener needs its own identifier
+                stem = (['x', 'q'], ['ab', 'dl'])[p['n'] - 1][e.choose(2)]
+                seps = [('-', '_'), ('_', ':'), (':', '-')][e.choose(3)]
+                third = ['HOLE_s%sb2' % seps[0], 'HOLE_s%sb-2' % seps[0], 'HOLE_sB2'][e.choose(3)]
+                order = e.choose(3)
+                names = ['HOLE_s%sb' % seps[0], 'HOLE_s%sb' % seps[1], third]
+                names = names[order:] + names[:order]
+                files['src/main.rs'] = C.HEADER + holder + 'pub fn work(app: tauri::AppHandle) { %s }\n' % ' '.join('app.emit("%s", %d).unwrap();' % (nm, i) for i, nm in enumerate(names))
+                names = [nm.replace('HOLE_s', stem) for nm in names]
+                files['src/main.rs'] = files['src/main.rs'].replace('HOLE_s', stem)
+                expected = [(Str(nm), ('num',)) for nm in names]
+                e.cover('three-names')
             elif kind == 'two':
                 a = sym.sym_str('a', p['a'], C.EVENT_ALPHABET)
                 b = sym.sym_str('b', p['b'], C.EVENT_ALPHABET)
